@@ -295,6 +295,7 @@ def corpus(P: str):
     add("socketio", "ws", None, b'42["ev",' + pj.encode() + b"," + b'"' + p + b'"]', path="/socket.io/?EIO=4&transport=websocket")
     add("socketio_ping", "ws", None, b"2", path="/socket.io/?EIO=4")
     add("wbxml", "http", "application/vnd.ms-sync.wbxml", b"\x03\x01\x6a\x00\x45\x5c\x4f\x50\x03" + p.replace(b"\x00", b"") + b"\x00\x01\x01\x01\x01")
+    add("wbxml_unterminated", "http", "application/vnd.wap.wbxml", b"\x03\x01\x6a\x00\x45\x03" + p.replace(b"\x00", b""))
     add("msgpack", "http", "application/msgpack", b"\x83" + _mstr(b"k") + _mstr(p) + _mstr(p) + b"\x92\x01" + _mstr(p) + _mstr(b"b") + b"\xc4\x02" + p[:2].ljust(2, b"\x00"))
     pbm = _pb(1, p) + b"\x10\x96\x01" + _pb(3, _pb(1, p) + b"\x08\x01")
     add("protobuf", "http", "application/x-protobuf", pbm)
@@ -459,11 +460,12 @@ def dns_roundtrip(wire: bytes, transport: str, how: str = "explicit", inctl: boo
     if not ok:
         return [rev, ev]
     try:
-        out = contentviews.reencode_message(res.text, msg, f, "dns")
+        with watchdog():
+            out = contentviews.reencode_message(res.text, msg, f, "dns")
     except BaseException as e:
         if isinstance(e, (KeyboardInterrupt, SystemExit)):
             raise
-        ev["reenc"], ev["exc"] = "raised", type(e).__name__
+        ev["reenc"], ev["exc"] = "raised", "NoReturn" if isinstance(e, _NoReturn) else type(e).__name__
         return [rev, ev]
     if transport == "tcp":
         if len(out) < 2 or struct.unpack("!H", out[:2])[0] != len(out) - 2:
@@ -504,6 +506,47 @@ def abstract_dns(ev: dict) -> dict:
             "rr_same": ev["rr_o"] == ev["rr_r"]}
 
 
+# ---- watchdog: a call that does not come back within NO_RETURN_S seconds is reported as raised = "NoReturn" -------------
+NO_RETURN_S = 12.0
+
+
+class _NoReturn(BaseException):
+    pass
+
+
+class watchdog:
+    """Interrupts the main thread after NO_RETURN_S seconds (SIGALRM); blocking lock waits are interruptible."""
+
+    def __enter__(self):
+        import signal
+
+        def fire(signum, frame):
+            raise _NoReturn()
+
+        self.old = signal.signal(signal.SIGALRM, fire)
+        signal.setitimer(signal.ITIMER_REAL, NO_RETURN_S)
+        return self
+
+    def __exit__(self, *exc):
+        import signal
+
+        signal.setitimer(signal.ITIMER_REAL, 0)
+        signal.signal(signal.SIGALRM, self.old)
+        return False
+
+
+def _where_blocked(e) -> str:
+    """'NoReturn@<module>': the innermost mitmproxy module the call was in when the watchdog fired (signature only)"""
+    import traceback
+
+    mod = "?"
+    for fs in traceback.extract_tb(e.__traceback__):
+        fn = fs.filename.replace("\\", "/")
+        if "/mitmproxy/" in fn:
+            mod = fn.rsplit("/mitmproxy/", 1)[1].rsplit(".", 1)[0]
+    return "NoReturn@" + mod
+
+
 # ---- one render call ---------------------------------------------------------------------------------------------
 def render(msg, flow, view_name, registry, *, mode, req, kind, content, inctl, idmap=None):
     from mitmproxy import contentviews
@@ -511,14 +554,15 @@ def render(msg, flow, view_name, registry, *, mode, req, kind, content, inctl, i
     ev = {"k": "render", "mode": mode, "req": req, "msg": kind, "content": content, "inctl": bool(inctl),
           "raised": "", "view": "", "via": "raised", "cls": []}
     try:
-        if registry is None:
-            res = contentviews.prettify_message(msg, flow, view_name)
-        else:
-            res = contentviews.prettify_message(msg, flow, view_name, registry)
+        with watchdog():
+            if registry is None:
+                res = contentviews.prettify_message(msg, flow, view_name)
+            else:
+                res = contentviews.prettify_message(msg, flow, view_name, registry)
     except BaseException as e:
         if isinstance(e, (KeyboardInterrupt, SystemExit)):
             raise
-        ev["raised"] = type(e).__name__
+        ev["raised"] = _where_blocked(e) if isinstance(e, _NoReturn) else type(e).__name__
         return ev, None
     text = res.text
     if not isinstance(text, str):
@@ -576,7 +620,8 @@ class Check(core.PropertyCheck):
 
         def outcome(view, data, md):
             try:
-                t = view.prettify(data, md)
+                with watchdog():
+                    t = view.prettify(data, md)
                 return "ok" if isinstance(t, str) else None
             except BaseException as ex:
                 if isinstance(ex, Exception):
@@ -678,6 +723,10 @@ class Check(core.PropertyCheck):
                 yield core.Scenario({"kind": "real", "view": n, "mode": mode, "out": None, "entry": ei,
                                      "c": rng.choice(CLASS_ORDER), "v": rng.randrange(100), "extra_variants": True},
                                     source="suite")
+        n_entries = len(corpus("x"))
+        for ei in range(n_entries):   # every corpus input as it is, automatic view selection (and raw explicitly)
+            for c in (("print", "esc") if ctx.quick else CLASS_ORDER):
+                yield core.Scenario({"kind": "entry", "entry": ei, "c": c, "v": rng.randrange(100), "view": "auto"}, source="suite")
         for _ in range(n_real):
             yield core.Scenario({"kind": "fuzz", "seed": rng.randrange(1 << 30)}, source="random")
         for _ in range(1500 if ctx.quick else 20000):
@@ -701,6 +750,9 @@ class Check(core.PropertyCheck):
             return self._stub(sc)
         if k == "real":
             return self._real(sc)
+        if k == "entry":
+            return self._real({"kind": "real", "view": sc["view"], "mode": "auto" if sc["view"] == "auto" else "explicit",
+                               "out": None, "entry": sc["entry"], "c": sc["c"], "v": sc["v"], "extra_variants": True})
         if k == "dns":
             return dns_roundtrip(dns_wire_abstract(sc["m"]), sc["transport"], inctl=sc["m"]["q"] == "ctl")
         if k == "dnsfuzz":
